@@ -94,11 +94,15 @@ def run_history(ops, variant_of, workdir, tag):
                         emd.logger.enable()
                     elif op[0] == 'call':
                         # watchdog: a call that does not come back is reported as exception 'CallTimeout'
+                        # (3 s of the child's own CPU time; 60 s of wall-clock as a fall-back)
                         signal.signal(signal.SIGALRM, core._alarm)
-                        signal.setitimer(signal.ITIMER_REAL, 3)
+                        signal.signal(signal.SIGPROF, core._alarm)
+                        signal.setitimer(signal.ITIMER_PROF, 3)
+                        signal.setitimer(signal.ITIMER_REAL, 60)
                         try:
                             exc, dig = do_call(emd, variant_of(i), op[1], op[2], x)
                         finally:
+                            signal.setitimer(signal.ITIMER_PROF, 0)
                             signal.setitimer(signal.ITIMER_REAL, 0)
                 except Exception as e:
                     exc = 'op:' + type(e).__name__
